@@ -7,8 +7,8 @@
 // every output line starts with "R " (sanitizer reports share the stream).
 // case line:   lruset|lrumap|splayset|splaymulti[:variant]  tok tok ...   (variants: see below)
 //              exh|exhv <kind> <nkeys> <len>      (bounded-exhaustive: all histories of that length)
-// LRU tokens:  @OP,j,.. = OP with the key argument aliasing the stored value of j (map only); P,k[,v] PG,k,j (put(k, get(j)), map only) T,k TI,k G,k GT,k E,k EI,k X,k S O C
-// splay tokens: @OP,j = OP with the key argument aliasing the key of the node find(j) returns; I,k E,k EN,k (find + erase(const Node*)) X,k F,k C T
+// LRU tokens:  @OP,j,.. = OP with the key argument aliasing the stored value of j (map only); P,k[,v] PG,k,j (put(k, get(j)), map only) T,k TI,k G,k GT,k E,k EI,k X,k S O C MV (move out and back)
+// splay tokens: @OP,j = OP with the key argument aliasing the key of the node find(j) returns; I,k E,k EN,k (find + erase(const Node*)) H,k (find, keep the node pointer) EH (erase(const Node*) of the kept node) X,k F,k C T
 #include <tlx/container/lru_cache.hpp>
 #include <tlx/container/splay_tree.hpp>
 #include "ledger.hpp"
@@ -280,6 +280,10 @@ static bool run_lru(const std::vector<Op>& ops, Sink& out, int& propfail) {
                 R.l.pop_back();
             } else if (n == "C") {
                 I.c.clear(); out.res('u'); R.l.clear();
+            } else if (n == "MV") {
+                // the implicitly generated move constructor and move assignment: the content travels into a
+                // temporary object and back; the stored list iterators must stay valid (no-op for the reference)
+                auto tmp(std::move(I.c)); I.c = std::move(tmp); out.res('u');
             } else { out.res('?'); }
             if (CI.size() != R.l.size()) fail();
             if (propfail >= 0) break;   // implementation and reference have diverged: stop this history
@@ -398,10 +402,15 @@ static void run_splay(const std::vector<Op>& ops, Sink& out, int& propfail) {
         typename V::T& T = holder.t;
         const typename V::T& CT = T;    // size(), empty(), check(), traverse_preorder() are const members
         std::multiset<int> R;
+        // H,k keeps the node pointer find(k) returned (when its key is k); EH calls erase(const Node*) with it later,
+        // when the node is in general no longer the root.  The pointer is dropped as soon as the node may have been
+        // freed: a successful erase of that key (with duplicates any of them may be the one removed) or clear().
+        decltype(T.find(V::K(0))) held = nullptr; int heldkey = -1;
         int idx = 0;
         for (const Op& o : ops) {
             if (idx) out.sep(' ');
             auto fail = [&]() { if (propfail < 0) propfail = idx; };
+            auto erased = [&](int k) { if (held != nullptr && k == heldkey) held = nullptr; };
             // "@OP,j": the key argument of OP is a reference into a tree node -- the key of the node returned by
             // find(j) (which may be a neighbour of j).  Same operation as OP with that key value.
             const bool aliased = !o.name.empty() && o.name[0] == '@';
@@ -416,7 +425,7 @@ static void run_splay(const std::vector<Op>& ops, Sink& out, int& propfail) {
                 } else if (n == "E") {
                     bool b = T.erase(key); out.res('b', b);
                     if (b != (cnt > 0)) fail();
-                    if (cnt > 0) R.erase(R.find(k));
+                    if (cnt > 0) { R.erase(R.find(k)); erased(k); }
                 } else if (n == "EN") {
                     // erase(const Node*): look the node up with find(), erase through the node pointer (the key
                     // reference then aliases the node being removed); nothing is erased when the key is absent
@@ -425,12 +434,22 @@ static void run_splay(const std::vector<Op>& ops, Sink& out, int& propfail) {
                     if (nd != nullptr && V::U(nd->key) == k) b = T.erase(nd);
                     out.res('b', b);
                     if (b != (cnt > 0)) fail();
-                    if (cnt > 0) R.erase(R.find(k));
+                    if (cnt > 0) { R.erase(R.find(k)); erased(k); }
                 } else if (n == "X") {
                     bool b = T.exists(key); out.res('b', b);
                     if (b != (cnt > 0)) fail();
-                } else if (n == "F") {
+                } else if (n == "EH") {
+                    if (held == nullptr) out.res('~');
+                    else {
+                        int hk = heldkey; size_t c = R.count(hk);
+                        bool b = T.erase(held); out.res('b', b);
+                        if (!b || c == 0) fail();
+                        if (c > 0) R.erase(R.find(hk));
+                        held = nullptr;
+                    }
+                } else if (n == "F" || n == "H") {
                     auto* nd = T.find(key);
+                    if (n == "H" && nd != nullptr && V::U(nd->key) == k) { held = nd; heldkey = k; }
                     if (nd == nullptr) { out.res('f'); out.sep('-'); if (!R.empty()) fail(); }
                     else {
                         int fk = V::U(nd->key); out.res('f', fk);
@@ -443,7 +462,7 @@ static void run_splay(const std::vector<Op>& ops, Sink& out, int& propfail) {
                         }
                     }
                 } else if (n == "C") {
-                    T.clear(); out.res('u'); R.clear();
+                    T.clear(); out.res('u'); R.clear(); held = nullptr;
                 } else if (n == "T") {
                     out.res('t');
                 } else { out.res('?'); }
